@@ -562,8 +562,49 @@ def shift_episodes(g, nep):
         ep.dropall()
 
 
+def spare_capacity_episodes(g):
+    """operands whose internal slices have spare capacity because of their HISTORY (ascending range insertions into a run chunk,
+    single insertions into an array chunk), united / intersected several times with operands lying beyond them: earlier results,
+    the operand and its copy-on-write siblings are all looked at after every call"""
+    r = g.r
+    for kind in ("runs", "array"):
+        k = r.choice([0, 7, 65535])
+        base = k * CH
+        a = g.fresh("ca")
+        g.emit("new %s" % a)
+        if kind == "runs":
+            for j in range(r.choice([3, 5])):
+                g.emit("addr %s %d %d" % (a, base + 1000 * j + 10, base + 1000 * j + 200))
+        else:
+            for j in range(r.choice([5, 17, 33])):
+                g.emit("add %s %d" % (a, base + 7 * j))
+        sib = g.fresh("ca")
+        g.emit("cowclone %s %s" % (sib, a))
+        zs = []
+        for j in range(3):
+            y, z = g.fresh("cb"), g.fresh("cz")
+            g.emit("new %s" % y)
+            if kind == "runs":
+                for t in range(r.choice([1, 2, 3])):
+                    g.emit("addr %s %d %d" % (y, base + 20000 + 5000 * j + 700 * t, base + 20000 + 5000 * j + 700 * t + 150 + j))
+            else:
+                g.emit("addmany %s %s" % (y, " ".join(str(base + 30000 + 100 * j + t) for t in range(r.choice([1, 3, 9])))))
+            g.emit("or %s %s %s" % (z, a, y))
+            zs.append(z)
+            g.emit("orcard %s %s" % (a, y))
+            g.emit("safe")
+            g.emit("digall")
+        g.emit("add %s %d" % (zs[0], base + 60000))
+        g.emit("safe")
+        g.emit("digall")
+        for n_ in [a, sib] + zs:
+            g.emit("drop %s" % n_)
+        g.count("alias:spare-capacity")
+
+
 @suite("alias")
 def _alias(g, scale):
+    spare_capacity_episodes(g)
     grid_binary(g, min(1.0, 0.28 * scale))
     grid_unary(g, min(1.0, 0.5 * scale))
     random_histories(g, max(1, int(6 * scale)), 22)
